@@ -499,6 +499,59 @@ fn long_program(rng: &mut SmallRng, pool: &[PushInstruction], family: u64) -> (V
     }
 }
 
+/// COUNTED runs: `dup_block` nested d deep around [int.push 1, int.pop] evaluates in exactly
+/// 5 * 2^d - 3 steps in constant space. With a step limit at or above that the run must finish
+/// (exec and int empty); below it, it must stop with work left. Millions of steps: evaluation
+/// depends on the program and its limits only, not on how long it takes.
+pub fn counted_runs(args: &[String]) -> i32 {
+    use std::io::Write;
+    let path = arg_req(args, "--out");
+    let depths: Vec<u64> = args.iter().position(|a| a == "--depths").map_or(vec![10, 16], |k| args[k + 1].split(',').filter_map(|x| x.parse().ok()).collect());
+    let mut f = std::fs::File::create(path).expect("create");
+    for (run, d) in depths.iter().enumerate() {
+        let item = |v: Value| item_from_json(&v);
+        let mut p = vec![item(json!({"f": "int", "o": "push", "v": 1})), item(json!({"f": "int", "o": "pop"}))];
+        for _ in 0..*d {
+            p = vec![item(json!({"f": "exec", "o": "dup_block"})), PushProgram::Block(p)];
+        }
+        let total: usize = 5 * (1usize << d) - 3;
+        let limits = if *d >= 21 { vec![total - 1, total] } else { vec![0, total / 2, total - 1, total, total + 1, 3 * total] };
+        for limit in limits {
+            writeln!(f, "{}", json!({"ev": "begin", "run": run, "family": 5, "limit": limit, "k": 2, "exec_max": d + 8, "other_max": 3})).expect("w");
+            f.flush().expect("flush");
+            let prog = p.clone();
+            let t0 = std::time::Instant::now();
+            let r = guarded(|| {
+                let mut st = PushState::builder().with_max_stack_size(3).with_no_program().with_instruction_step_limit(limit).build();
+                {
+                    use push::push_vm::HasStack;
+                    let ex = st.stack_mut::<PushProgram>();
+                    ex.set_max_stack_size(*d as usize + 8);
+                    ex.push_many(prog).expect("program fits");
+                }
+                match st.run_to_completion() {
+                    Ok(s) => ("ok", json!({"kind": "none", "stack": "none"}), sizes_json(&s)),
+                    Err(fe) => {
+                        let dbg = format!("{fe:?}");
+                        let s = fe.into_state();
+                        ("fatal", fatal_err_json(&dbg), sizes_json(&s))
+                    }
+                }
+            });
+            match r {
+                Ok((status, err, (sizes, maxes))) => writeln!(f, "{}", json!({"ev": "bound", "run": run, "family": 5, "limit": limit,
+                    "status": status, "err": err, "sizes": sizes, "max": maxes, "flat": false, "k": 2, "outbytes": 0, "prefix_ok": true,
+                    "counted": true, "depth": d, "seconds": t0.elapsed().as_secs_f64()})).expect("w"),
+                Err(m) => {
+                    writeln!(f, "{}", json!({"ev": "panic", "run": run, "family": 5, "limit": limit, "msg": m})).expect("w");
+                    break;
+                }
+            }
+        }
+    }
+    0
+}
+
 /// Each run: one program, a ladder of step limits; before every real call a `begin` line is
 /// flushed so that a hang can be attributed by the caller's watchdog.
 pub fn long_runs(args: &[String]) -> i32 {
